@@ -420,7 +420,37 @@ func putRecord(b []byte, off int, name string, next uint32, v uint64) {
 	copy(b[off+16:], name)
 }
 
+// tailRecord: an input whose length is not a multiple of 32 (nor of the page
+// size), with a complete record in the partial unit after the last full one,
+// linked from its bucket (alone, or behind the chain that is already there).
+func tailRecord(base []byte) []byte {
+	t := 17 + rnd.Intn(15)
+	if rnd.Chance(20) {
+		t = 17 + rnd.Intn(200) // several units and a partial one
+	}
+	L := len(base)
+	b := append(append([]byte(nil), base...), make([]byte, t)...)
+	hl := int(le32(b, 28))
+	maxName := t - 16
+	if maxName > 40 {
+		maxName = 40
+	}
+	name := fmtgen.NameOfLen(rnd, 1+rnd.Intn(maxName))
+	off := L + 8*rnd.Intn((t-16-len(name))/8+1)
+	ho := hl + 4 + 4*int(fmtgen.Hash(name))
+	putRecord(b, off, name, le32(b, ho), uint64(rnd.Intn(1000)))
+	put32(b, ho, uint32(off))
+	out.Note("tail-record-len-mod32-" + strconv.Itoa(len(b)%32))
+	return b
+}
+
 func regression() []byte {
+	if rnd.Chance(25) {
+		if rnd.Bool() {
+			return tailRecord(blank(16384*(1+rnd.Intn(2)), 32))
+		}
+		return tailRecord(validFile())
+	}
 	switch rnd.Intn(8) {
 	case 0: // header length below the fixed prefix (fix 23cf018)
 		return blank(16384, Pick(rnd, []uint32{0, 1, 16, 27, 28, 29, 30, 31}))
